@@ -178,6 +178,26 @@ def f_padding():
     return res[0] == res[1], f"fields differ with padding 0xFF vs 0x00: {res[0]} / {res[1]}"
 
 
+@finding("C01/na-inside-range/129795.sequenceNumber", "C01")
+def f_na_inside_range():
+    """raw 3 of the 2-bit AIS Sequence Number (database range 0..3) is reported as no value"""
+    d = _dec()
+    m = d.decode_basic_string("2024-01-01-00:00:00.000,3,129801,7,255,11,00,80,85,b5,0d,c0,80,85,b5,0d,00", True)
+    f = m.get_field_by_id("sequenceNumber")
+    return f.value == 3, f"129801 sequenceNumber bits 0b11 (database range 0..3): value {f.value!r}, raw {f.raw_value!r}"
+
+
+@finding("C01/repeating-set-absent/129796", "C01")
+def f_repeating_set_absent():
+    """a 6-byte AIS Acknowledge (MinLength 6, zero repetitions of the repeating set) raises"""
+    d = _dec()
+    try:
+        m = d.decode_basic_string("2024-01-01-00:00:00.000,7,129796,7,255,6,07,80,85,b5,0d,01", True)
+    except Exception as e:
+        return False, f"129796 with zero repetitions raises {type(e).__name__}: {e}"
+    return m is not None, "decodes"
+
+
 @finding("C01/time-of-day-value/TIME", "C01")
 def f_time_of_day():
     """in-range TIME raw values 86400 s and 86401 s (leap second) are reported as 00:00:00; sub-second parts are dropped from the value"""
@@ -512,6 +532,240 @@ def f_overlong_line():
     return got == [127257, 127250, 130306] and n == 1, f"delivered {got}, connections opened {n} (a decoder returns 127257, 127250, 130306 for the stream's lines)"
 
 
+@finding("C13/zero-delay/accept-and-drop", "C13")
+def f_accept_and_drop():
+    """a gateway that accepts and immediately drops every connection was reconnected to without any delay (thousands of attempts per second)"""
+    import nmea2000.ioclient as io_
+
+    async def main():
+        attempts = []
+
+        async def fake_open(host, port):
+            attempts.append(asyncio.get_event_loop().time())
+            rd = asyncio.StreamReader()
+            rd.feed_eof()                      # accepted, then dropped at once
+            return rd, _FakeWriter()
+        io_.asyncio.open_connection = fake_open
+        c = io_.YachtDevicesNmea2000Gateway("h", 1)
+        await c.connect()
+        await asyncio.sleep(1.3)
+        n = len(attempts)
+        gaps = [b - a for a, b in zip(attempts, attempts[1:])]
+        await c.close()
+        return n, (min(gaps) if gaps else None)
+    import asyncio as _a
+    real_open = _a.open_connection
+    try:
+        n, g = _run(main(), timeout=10)
+    finally:
+        _a.open_connection = real_open
+    return n <= 6 and (g is None or g >= 0.2), f"{n} connection attempts in 1.3 s, smallest gap between attempts {g if g is None else round(g, 4)} s"
+
+
+@finding("C13/connect-from-status-callback", "C13")
+def f_connect_from_status_callback():
+    """connect() called from the status callback on DISCONNECTED ran inside the receive task and cancelled it: no receive path was left and
+    the retry machinery opened connection after connection"""
+    import nmea2000.ioclient as io_
+
+    async def main():
+        opened = []
+
+        async def fake_open(host, port):
+            rd = asyncio.StreamReader()
+            opened.append(rd)
+            return rd, _FakeWriter()
+        io_.asyncio.open_connection = fake_open
+        c = io_.YachtDevicesNmea2000Gateway("h", 1)
+        got = []
+
+        async def cb(m):
+            got.append(m.PGN)
+        c.set_receive_callback(cb)
+
+        async def st(s):
+            if s.name == "DISCONNECTED":
+                await c.connect()
+        c.set_status_callback(st)
+        await c.connect()
+        opened[0].feed_eof()
+        await asyncio.sleep(1.5)
+        opened[-1].feed_data(b"00:01:54.430 R 15F11910 00 00 00 E5 0B 1D FF FF\r\n")
+        await asyncio.sleep(0.2)
+        n = len(opened)
+        state = c.state.name
+        await c.close()
+        return n, got, state
+    import asyncio as _a
+    real_open = _a.open_connection
+    try:
+        n, got, state = _run(main(), timeout=10)
+    finally:
+        _a.open_connection = real_open
+    return n == 2 and got == [127257] and state == "CONNECTED", f"connections opened {n}, delivered after recovery {got}, state {state}"
+
+
+@finding("C13/no-yield/buffered-frames", "C13")
+def f_no_yield():
+    """frames that are already buffered were read and queued without ever giving other tasks a turn"""
+    import nmea2000.ioclient as io_
+
+    async def main():
+        rd = asyncio.StreamReader(limit=2 ** 22)
+
+        async def fake_open(host, port):
+            return rd, _FakeWriter()
+        io_.asyncio.open_connection = fake_open
+        c = io_.YachtDevicesNmea2000Gateway("h", 1)
+        beats = [0]
+        marks = []
+        orig_put = c.queue.put
+
+        async def put(m):
+            marks.append(beats[0])
+            await orig_put(m)
+        c.queue.put = put
+
+        async def heart():
+            while True:
+                beats[0] += 1
+                await asyncio.sleep(0)
+        h = asyncio.create_task(heart())
+        await c.connect()
+        rd.feed_data(b"00:01:54.430 R 15F11910 00 00 00 E5 0B 1D FF FF\r\n" * 400)
+        await asyncio.sleep(0.5)
+        h.cancel()
+        await c.close()
+        longest, run = 1, 1
+        for a, b in zip(marks, marks[1:]):
+            run = run + 1 if a == b else 1
+            longest = max(longest, run)
+        return len(marks), longest
+    import asyncio as _a
+    real_open = _a.open_connection
+    try:
+        n, longest = _run(main(), timeout=20)
+    finally:
+        _a.open_connection = real_open
+    return n == 400 and longest <= 2, f"{n} frames received; up to {longest} frames were processed between two turns of another task"
+
+
+@finding("C14/link-open/stalled-peer", "C14")
+def f_close_stalled_peer():
+    """close() while the gateway does not read and the write buffer is full: the shutdown waited for the buffer to drain, the link stayed open"""
+    from nmea2000.ioclient import EByteNmea2000Gateway, State
+    from nmea2000.decoder import NMEA2000Decoder
+
+    async def main():
+        release = asyncio.Event()
+
+        async def handle(reader, writer):
+            await release.wait()
+            writer.close()
+        server = await asyncio.start_server(handle, "127.0.0.1", 0)
+        port = server.sockets[0].getsockname()[1]
+        c = EByteNmea2000Gateway("127.0.0.1", port)
+        await c.connect()
+        msg = NMEA2000Decoder().decode_yacht_devices_string("00:01:54.430 R 15F11910 00 00 00 E5 0B 1D FF FF")
+        sent = [0]
+
+        async def sender():
+            while c.state == State.CONNECTED:
+                await c.send(msg)
+                sent[0] += 1
+        st = asyncio.create_task(sender())
+        last = -1
+        while last != sent[0]:
+            last = sent[0]
+            await asyncio.sleep(0.2)
+        sock = c.writer.get_extra_info("socket")
+        await c.close()
+        await asyncio.sleep(0.5)
+        open_ = sock.fileno() != -1
+        stuck = not st.done()
+        st.cancel()
+        release.set()
+        server.close()
+        return open_, stuck
+    open_, stuck = _run(main(), timeout=30)
+    return (not open_) and (not stuck), f"0.5 s after close() returned: socket still open = {open_}, sender still blocked in send() = {stuck}"
+
+
+@finding("C12/delivery/overlong-line-remainder", "C12")
+def f_overlong_line_remainder():
+    """one line of 70000 garbage characters followed by a valid sentence: delivered or not depending on where the read boundary falls"""
+    import nmea2000.ioclient as io_
+
+    async def run(parts):
+        rd = asyncio.StreamReader()
+
+        async def fake_open(host, port):
+            return rd, _FakeWriter()
+        io_.asyncio.open_connection = fake_open
+        c = io_.ActisenseNmea2000Gateway("h", 1)
+        got = []
+
+        async def cb(m):
+            got.append(m.PGN)
+        c.set_receive_callback(cb)
+        await c.connect()
+        for p in parts:
+            rd.feed_data(p)
+            await asyncio.sleep(0.05)
+        await c.close()
+        return got
+
+    async def main():
+        line = b"X" * 70000 + b"A000057.055 09FF7 0FF00 3F9FDCFFFFFFFFFF\n"
+        return await run([line]), await run([line[:70000], line[70000:]])
+    import asyncio as _a
+    real_open = _a.open_connection
+    try:
+        a, b = _run(main(), timeout=20)
+    finally:
+        _a.open_connection = real_open
+    return a == b == [], f"the line in one piece delivers {a}; cut after the 70000 garbage characters it delivers {b} (a decoder rejects the whole line)"
+
+
+@finding("C12/delivery/callback-cancelled-error", "C12")
+def f_callback_cancelled_error():
+    """a receive callback that lets asyncio.CancelledError escape (it awaited a helper task that had been cancelled) ended the one consumer
+    task: no later message was ever delivered although the client stayed CONNECTED"""
+    import nmea2000.ioclient as io_
+
+    async def main():
+        rd = asyncio.StreamReader()
+
+        async def fake_open(host, port):
+            return rd, _FakeWriter()
+        io_.asyncio.open_connection = fake_open
+        c = io_.YachtDevicesNmea2000Gateway("h", 1)
+        calls = []
+
+        async def cb(m):
+            calls.append(m.PGN)
+            if len(calls) == 2:
+                t = asyncio.ensure_future(asyncio.sleep(10))
+                t.cancel()
+                await t
+        c.set_receive_callback(cb)
+        await c.connect()
+        for _ in range(5):
+            rd.feed_data(b"00:01:54.430 R 15F11910 00 00 00 E5 0B 1D FF FF\r\n")
+            await asyncio.sleep(0.03)
+        n = len(calls)
+        done = c._process_queue_task.done()
+        await c.close()
+        return n, done, c._process_queue_task.done()
+    import asyncio as _a
+    real_open = _a.open_connection
+    try:
+        n, done, done_after_close = _run(main())
+    finally:
+        _a.open_connection = real_open
+    return n == 5 and not done and done_after_close, f"callback invoked {n} times for 5 lines; consumer task ended early: {done}; ended after close(): {done_after_close}"
+
+
 @finding("C14/task-alive", "C14")
 def f_close_from_status_callback():
     """close() called from the status callback at the first fault (the callback runs inside the receive task) cancelled the task it
@@ -553,6 +807,58 @@ def f_close_from_status_callback():
     finally:
         _a.open_connection = real_open
     return (not raised) and (not alive) and st == "CLOSED", f"status log {states}, close() raised {raised}, queue consumer still pending: {alive}, state {st}"
+
+
+@finding("C15/dump/cli-options", "C15")
+def f_cli_dump_options():
+    """the command line passed --dump_pgns as one raw string (split into one-letter ids by the decoder) and the tcp_client sub-command
+    did not pass its dump options on at all"""
+    import nmea2000.cli as cli
+    seen = []
+
+    class Fake:
+        def __init__(self, *a, **kw):
+            seen.append(kw)
+
+    async def no_interactive(client):
+        return None
+    saved = (cli.EByteNmea2000Gateway, cli.WaveShareNmea2000Gateway, cli.interactive_client, sys.argv)
+    try:
+        cli.EByteNmea2000Gateway = Fake
+        cli.WaveShareNmea2000Gateway = Fake
+        cli.interactive_client = no_interactive
+        sys.argv = ["nmea2000-cli", "usb_client", "--port", "/dev/null", "--dump_file", "d.jsonl", "--dump_pgns", "65280,windData"]
+        asyncio.run(cli.async_main())
+        sys.argv = ["nmea2000-cli", "tcp_client", "--server", "h", "--port", "1", "--type", "EBYTE", "--dump_file", "d.jsonl", "--dump_pgns", "127250"]
+        asyncio.run(cli.async_main())
+    finally:
+        cli.EByteNmea2000Gateway, cli.WaveShareNmea2000Gateway, cli.interactive_client, sys.argv = saved
+    ok = (len(seen) == 2 and seen[0].get("dump_pgns") == [65280, "windData"] and seen[0].get("dump_to_file") == "d.jsonl"
+          and seen[1].get("dump_pgns") == [127250] and seen[1].get("dump_to_file") == "d.jsonl")
+    return ok, f"usb_client passes {seen[0] if seen else None}; tcp_client passes {seen[1] if len(seen) > 1 else None}"
+
+
+@finding("C16/rejected-input/overlong-claim", "C16")
+def f_overlong_claim():
+    """an address claim with a ninth data byte gave a NAME wider than 64 bits: with a dump file configured the claim was rejected with
+    TypeError (orjson) AFTER the source map had been updated, and every later message from that source raised as well"""
+    tmp = tempfile.TemporaryDirectory()
+    d = _dec(dump_to_file=os.path.join(tmp.name, "dump.jsonl"))
+    probe = "2022-09-10T12:10:17.000Z,2,127250,7,255,8,00,10,27,ff,7f,ff,7f,fd"
+    before = d.decode_basic_string(probe)
+    try:
+        d.decode_basic_string("2022-09-10T12:10:16.614Z,6,60928,7,255,9,01,02,03,04,05,06,07,08,09")
+        claim = "accepted"
+    except Exception as e:
+        claim = "raised " + type(e).__name__
+    try:
+        after = d.decode_basic_string(probe)
+        res = "decodes" if after is not None and [f.value for f in after.fields] == [f.value for f in before.fields] else "differs"
+    except Exception as e:
+        res = "raises " + type(e).__name__
+    iso = d.source_to_iso_name.get(7)
+    d.close(); tmp.cleanup()
+    return res == "decodes" and (iso is None or iso.name < 2 ** 64), f"9-byte claim {claim}; a later heading message from that source {res}; stored NAME {iso and hex(iso.name)}"
 
 
 @finding("C17/hash/text-key-None", "C17")
@@ -623,6 +929,73 @@ def f_send_header_none():
     return states == ["CONNECTED"] and st == "CONNECTED" and n == 1, f"status log before close {states}, state {st}, connections opened {n}"
 
 
+@finding("C19/split-over-links", "C19")
+def f_send_split_over_links():
+    """send() re-read self.writer for every packet: a sender suspended in drain() while the client reconnected wrote the rest of its
+    message to the new link"""
+    import nmea2000.ioclient as io_
+
+    class W(_FakeWriter):
+        def __init__(self):
+            super().__init__()
+            self.gate = None
+            self.out = []
+
+        def write(self, b):
+            self.out.append(bytes(b))
+
+        async def drain(self):
+            if self.gate is not None:
+                await self.gate.wait()
+
+    async def main():
+        ws = []
+
+        async def fake_open(host, port):
+            w = W()
+            ws.append(w)
+            return asyncio.StreamReader(), w
+        io_.asyncio.open_connection = fake_open
+        c = io_.EByteNmea2000Gateway("h", 1)
+
+        class Enc:
+            def encode_ebyte(self, m):
+                return [bytes([i]) * 13 for i in range(5)]
+        c.encoder = Enc()
+        await c.connect()
+        ws[0].gate = asyncio.Event()              # flow control: the gateway does not read
+        t = asyncio.create_task(c.send(object()))
+        await asyncio.sleep(0.01)                 # the sender has written packet 0 and is suspended in drain()
+        c.reader.feed_eof()                       # the gateway half-closes: the client reconnects
+        await asyncio.sleep(1.0)
+        ws[0].gate.set()                          # the old link drains
+        await asyncio.sleep(0.05)
+        n = [len(w.out) for w in ws]
+        t.cancel()
+        await c.close()
+        return n
+    import asyncio as _a
+    real_open = _a.open_connection
+    try:
+        n = _run(main())
+    finally:
+        _a.open_connection = real_open
+    return len(n) >= 2 and n[0] == 5 and all(x == 0 for x in n[1:]), f"packets of the one 5-packet message per link, in connection order: {n}"
+
+
+@finding("C19/unsendable-not-harmless/destination-range", "C19")
+def f_send_destination_range():
+    """a destination above 255 was OR-ed into the PGN bits of the frame id: ISO Request 59904 to destination 256 was written as PGN 60160"""
+    from nmea2000.encoder import NMEA2000Encoder
+    from nmea2000.message import NMEA2000Message, NMEA2000Field
+    m = NMEA2000Message(PGN=59904, id="isoRequest", fields=[NMEA2000Field("pgn", value=60928, raw_value=60928)], source=1, destination=256, priority=6)
+    try:
+        pk = NMEA2000Encoder().encode_ebyte(m)
+    except ValueError:
+        return True, "rejected with ValueError"
+    return False, f"written as {pk[0].hex()} (frame id {pk[0][1:5].hex()})"
+
+
 @finding("C19/concurrent-send-interleave", "C19")
 def f_send_interleave():
     import nmea2000.ioclient as io_
@@ -689,6 +1062,50 @@ def f_actisense_send():
     finally:
         _a.open_connection = real_open
     return states == ["CONNECTED", "CLOSED"] and not written, f"status log {states} (format without an encoder must leave the connection as it was)"
+
+
+@finding("C20/noise-free-loss/junction-marker", "C20")
+def f_serial_junction():
+    """after a marker inside noise had swallowed the head of packet 1 (always 20 bytes were consumed, also on a checksum mismatch), the tail of
+    packet 1 (checksum byte AA) and the first byte of a MARKER-FREE noise run (55) read as a marker, and packet 2 was lost as well"""
+    import serial_asyncio
+    from nmea2000.ioclient import WaveShareNmea2000Gateway
+    from nmea2000.encoder import NMEA2000Encoder
+    from nmea2000.utils import calculate_canbus_checksum
+
+    def packet(pgn, src, data):
+        fid = NMEA2000Encoder._build_header(pgn, src, 255, 2)
+        b = bytes([0xaa, 0x55, 1, 2, 1]) + fid.to_bytes(4, "little") + bytes([8]) + bytes(data) + b"\x00"
+        return b + bytes([calculate_canbus_checksum(b)])
+
+    async def main():
+        p1 = next(p for p in (packet(127251, 7, [1, x, 0, 0, 0, 0xff, 0xff, 0xff]) for x in range(256)) if p[19] == 0xAA)
+        p2 = packet(127251, 7, [2, 9, 0, 0, 0, 0xff, 0xff, 0xff])
+        p3 = packet(127251, 7, [3, 9, 0, 0, 0, 0xff, 0xff, 0xff])
+        noise_a = b"\xaa\x55" + bytes(14)               # noise containing a marker: may cost packet 1
+        noise_b = b"\x55" + bytes(range(1, 18))          # 18 bytes without a marker
+        reader = asyncio.StreamReader()
+
+        async def fake_open(**kw):
+            return reader, _FakeWriter()
+        real = serial_asyncio.open_serial_connection
+        serial_asyncio.open_serial_connection = fake_open
+        try:
+            c = WaveShareNmea2000Gateway("/dev/null")
+            got = []
+
+            async def cb(m):
+                got.append(m.fields[0].value)
+            c.set_receive_callback(cb)
+            await c.connect()
+            reader.feed_data(noise_a + p1 + noise_b + p2 + p3)
+            await asyncio.sleep(0.2)
+            await c.close()
+        finally:
+            serial_asyncio.open_serial_connection = real
+        return got
+    got = _run(main())
+    return 2 in got and 3 in got, f"packets with sid 1, 2, 3 sent (marker noise, p1, marker-free noise, p2, p3): delivered sids {got}"
 
 
 @finding("C20/unbounded-buffer", "C20")
